@@ -392,9 +392,49 @@ let op_strender (args : str list) : str list =
        | _ -> ["notparsed"])
   | _ -> ["bad-args"]
 
+(* semantic rules on facts: one fact per argument (fields separated by ','; see harness op `facts`) ->
+   one field per rule, "code@pos code@pos ..", in the order const_init const_not_fb global_const task enum_value fb_call stdlib *)
+let fact_of (w : str) : fact =
+  let name h = text_of_hex h in
+  let num x = n_of_int (int_of_string x) in
+  let names l = if l = "" then [] else List.map name (S.split_on_char ':' l) in
+  match S.split_on_char ',' w with
+  | ["EA"; n; t; p] -> FEnumAlias (name n, name t, num p)
+  | ["EV"; n; vs] -> FEnumValues (name n, names vs)
+  | ["EN"; k; n] -> FEnter ((match k with "F" -> PkFunction | "B" -> PkFB | _ -> PkProgram), name n)
+  | ["EX"] -> FExit
+  | ["VA"; n; c; q; k; t; h; p] ->
+      FVar { v_name = (if n = "-" then None else Some (name n));
+             v_class = (match c with "var" -> VcVar | "temp" -> VcTemp | "input" -> VcInput | "output" -> VcOutput | "inout" -> VcInOut
+                                   | "external" -> VcExternal | "global" -> VcGlobal | "access" -> VcAccess | _ -> failwith "class");
+             v_qual = (match q with "unspec" -> QUnspec | "const" -> QConst | "retain" -> QRetain | "nonretain" -> QNonRetain | _ -> failwith "qual");
+             v_ikind = (match k with "none" -> IkNone | "simple" -> IkSimple | "string" -> IkString | "enumvalues" -> IkEnumValues
+                                   | "enumtype" -> IkEnumType | "fb" -> IkFB | "subrange" -> IkSubrange | "struct" -> IkStruct
+                                   | "array" -> IkArray | "late" -> IkLate | _ -> failwith "ikind");
+             v_type = (if t = "-" then [] else name t); v_hasinit = (h = "1"); v_pos = num p }
+  | ["ED"; n] -> FEdge (name n)
+  | ["CA"; i; p; args] ->
+      let arg a = if a = "P" then APos
+                  else if S.length a > 0 && a.[0] = 'N' then ANamed (name (S.sub a 1 (S.length a - 1)))
+                  else if S.length a > 0 && a.[0] = 'O' then AOut (name (S.sub a 1 (S.length a - 1)))
+                  else failwith "arg" in
+      FCall (name i, num p, (if args = "" then [] else List.map arg (S.split_on_char ':' args)))
+  | ["EI"; t; tp; v; vp] -> FEnumInit (name t, num tp, (if v = "-" then None else Some (name v, num vp)))
+  | ["FI"; t; tp] -> FFbInit (name t, num tp)
+  | ["RS"; ts; ps] ->
+      let prog x = if x = "-" then None else
+        (match S.split_on_char '@' x with [t; p] -> Some (name t, num p) | _ -> failwith "prog") in
+      FRes (names ts, (if ps = "" then [] else List.map prog (S.split_on_char ':' ps)))
+  | _ -> failwith ("bad fact " ^ w)
+let op_rules (args : str list) : str list =
+  let fs = List.map fact_of (List.filter (fun w -> w <> "") args) in
+  let show ds = if ds = [] then "-" else S.concat " " (List.map (fun (c, p) -> dec_of_n c ^ "@" ^ dec_of_n p) ds) in
+  [ show (rule_const_init fs); show (rule_const_not_fb fs); show (rule_global_const fs); show (rule_task fs);
+    show (rule_enum_value fs); show (rule_fb_call fs); show (rule_stdlib fs) ]
+
 let ops : (str * (str list -> str list)) list ref =
   ref [ ("lex", op_lex); ("semtok", op_semtok); ("decode", op_decode); ("lit", op_lit); ("cycle", op_cycle);
-        ("lsp", op_lsp); ("cli", op_cli); ("rule", op_rule); ("expr", op_expr); ("scope", op_scope); ("stmts", op_stmts); ("strender", op_strender) ]
+        ("lsp", op_lsp); ("cli", op_cli); ("rule", op_rule); ("expr", op_expr); ("scope", op_scope); ("stmts", op_stmts); ("strender", op_strender); ("rules", op_rules) ]
 
 
 let () =
